@@ -531,8 +531,53 @@ def check(ctx, form, sig, sample=False):
         ctx.sample({"form_md": common.sheets_to_md(sheets)[:1800], "observed": "instances, items, itemsets, external instances and CSV as expected"})
 
 
+def shared_filter_text_forms(ctx):
+    """The same choice_filter text written on selects that sit in different places of one repeat (two sibling groups, the repeat itself, a nested
+    group): each select's itemset predicate reaches the question the filter names from where that select is."""
+    k = 0
+    for order in ((0, 1), (1, 0)):
+        for kind in ("select_one l1", "select_multiple l1", "select_one_external ext"):
+            for deep in (False, True):
+                k += 1
+                if not ctx.mine(k):
+                    continue
+                sel = lambda nm: Row("q", kind, nm, {"label": nm, "choice_filter": "grp = ${state}"})  # noqa: E731
+                g1 = Row("group", "begin group", "g1", {"label": "G1"}, [Row("q", "text", "state", {"label": "S"}), sel("city1")])
+                inner = [sel("city2")]
+                g2 = Row("group", "begin group", "g2", {"label": "G2"}, [Row("group", "begin group", "g2in", {"label": "I"}, inner)] if deep else inner)
+                groups = [g1, g2]
+                rep = Row("repeat", "begin repeat", "rep", {"label": "R"}, [groups[order[0]], groups[order[1]], sel("city0")])
+                f = Form()
+                f.survey = [rep]
+                f.choices = {"l1": [{"name": "a", "label": "A", "grp": "x"}, {"name": "b", "label": "B", "grp": "y"}]}
+                if "external" in kind:
+                    f.external_choices = [{"list_name": "ext", "name": "a", "label": "A", "grp": "x"}]
+                o = drive.convert_form(f)
+                ctx.case(sig=f"shared-filter|{order}|{kind}|{deep}")
+                ctx.ctr("shared_filter_text_forms")
+                wit = common.witness(f, klass="shared-filter")
+                if not o.ok:
+                    ctx.viol("shared-filter:refused", o.brief()[:200], wit)
+                    continue
+                p = xf.Parsed(o.xform)
+                want = {"/data/rep/g1/city1": "../state", "/data/rep/city0": "../g1/state", ("/data/rep/g2/g2in/city2" if deep else "/data/rep/g2/city2"): ("../../../g1/state" if deep else "../../g1/state")}
+                for el in p.body.iter():
+                    ref = el.get("ref") if isinstance(el.tag, str) else None
+                    if ref not in want:
+                        continue
+                    its = el.find(xf.q(xf.XF, "itemset"))
+                    text = (its.get("nodeset") if its is not None else el.get("query")) or ""
+                    ctx.ctr("itemsets_parsed")
+                    m_ = re.search(r"grp\s*=\s*(?:current\(\)/)?([./\w-]+)", text)
+                    got = m_.group(1) if m_ else None
+                    # current() is the select itself (the predicate is evaluated at an item of the list, hence the anchor)
+                    if got != want[ref] and got != "/data/rep/g1/state":
+                        ctx.viol("shared-filter:predicate-reaches-another-node", f"{ref}: filter 'grp = ${{state}}' became {text!r}; from this select the question is at {want[ref]!r} (relative to current())", wit)
+
+
 def run_shard(ctx):
     pl = plan(ctx.tier, ctx.seed)
+    shared_filter_text_forms(ctx)
     for i in range(pl["n"]):
         if not ctx.mine(i):
             continue
@@ -545,5 +590,8 @@ def run_shard(ctx):
 
 def replay(w):
     def chk(ctx, wit):
+        if wit.get("klass") == "shared-filter":
+            shared_filter_text_forms(ctx)
+            return
         check(ctx, common.form_from_witness(wit), "replay")
     return common.replay_with(PROP, w, chk)
